@@ -712,7 +712,7 @@ func (env *Env) call(n *ast.CallExpr) TV {
 		return TV{T: env.e.convert(v.T, v.Ty, t), Ty: t}
 	}
 	switch fname {
-	case "implies", "forall", "old", "atloop", "sameOwed", "sameOwn", "owedNonNeg", "nolocks", "samelocks", "sameWrExcept", "sameRdExcept":
+	case "implies", "forall", "old", "atloop", "sameOwed", "sameOwn", "owedNonNeg", "nolocks", "samelocks", "sameWrExcept", "sameRdExcept", "sameelems", "strelems":
 	default:
 		if _, isDef := env.e.p.cs.Defines[fname]; !isDef {
 			env = env.noSkolem()
@@ -924,6 +924,43 @@ func (env *Env) call(n *ast.CallExpr) TV {
 		v := env.eval(n.Args[0])
 		c.DeclComp("$closed", "(Array Int Bool)")
 		return TV{T: sel(c.Get(env.st, "$closed"), v.T), Ty: boolT}
+	case "sameelems": // sameelems(a, b, n): the first n elements of slices a and b agree
+		a, aArr := env.sliceAndArray(n.Args[0])
+		b, bArr := env.sliceAndArray(n.Args[1])
+		nn := env.coerce(env.eval(n.Args[2]), types.Typ[types.Int])
+		if aArr == "" || bArr == "" {
+			return env.fail("sameelems: slice arguments expected")
+		}
+		body := func(j string) string {
+			return implies(and("(bvsle (s.off "+a+") "+j+")", "(bvslt "+j+" (bvadd (s.off "+a+") "+nn.T+"))"),
+				eq(sel(aArr, j), sel(bArr, "(bvadd (bvsub "+j+" (s.off "+a+")) (s.off "+b+"))")))
+		}
+		if env.skolem {
+			sk := c.Fresh("sk.j", bvSort(64))
+			return TV{T: body(sk), Ty: boolT}
+		}
+		return TV{T: fmt.Sprintf("(forall ((j (_ BitVec 64))) (! %s :pattern ((select %s j))))", body("j"), aArr), Ty: boolT}
+	case "strelems": // strelems(a, pos, s): a[pos+k] == s[k] for all k < len(s)
+		a, aArr := env.sliceAndArray(n.Args[0])
+		pos := env.coerce(env.eval(n.Args[1]), types.Typ[types.Int])
+		sv := env.defaultType(env.eval(n.Args[2]))
+		cnt := "(gs.len " + sv.T + ")"
+		if len(n.Args) == 4 {
+			cnt = env.coerce(env.eval(n.Args[3]), types.Typ[types.Int]).T
+		}
+		if aArr == "" {
+			return env.fail("strelems: slice expected")
+		}
+		base := "(bvadd (s.off " + a + ") " + pos.T + ")"
+		body := func(j string) string {
+			return implies(and("(bvsle "+base+" "+j+")", "(bvslt "+j+" (bvadd "+base+" "+cnt+"))"),
+				eq(sel(aArr, j), "(gs.at "+sv.T+" (bvsub "+j+" "+base+"))"))
+		}
+		if env.skolem {
+			sk := c.Fresh("sk.j", bvSort(64))
+			return TV{T: body(sk), Ty: boolT}
+		}
+		return TV{T: fmt.Sprintf("(forall ((j (_ BitVec 64))) (! %s :pattern ((select %s j))))", body("j"), aArr), Ty: boolT}
 	case "snocstrs", "snocqids": // s followed by the encodings of list[0..i)
 		sq := env.eval(n.Args[0])
 		l := env.eval(n.Args[1])
@@ -1342,4 +1379,26 @@ func (env *Env) intArg(x ast.Expr, w int) string {
 		return bvLit(w, 0)
 	}
 	return v.T
+}
+
+// sliceAndArray evaluates a slice-typed argument and returns the slice term
+// and the term of its element array in the state the argument refers to
+// (old(...) arguments use the old heap).
+func (env *Env) sliceAndArray(x ast.Expr) (string, string) {
+	e2 := env.noSkolem()
+	if ce, ok := x.(*ast.CallExpr); ok {
+		if id, ok := ce.Fun.(*ast.Ident); ok && id.Name == "old" && len(ce.Args) == 1 {
+			e2 = e2.with(env.old)
+			x = ce.Args[0]
+		}
+	}
+	v := e2.eval(x)
+	if v.Ty == nil {
+		return "", ""
+	}
+	sl, ok := v.Ty.Underlying().(*types.Slice)
+	if !ok {
+		return "", ""
+	}
+	return v.T, sel(env.e.c.Get(e2.st, env.e.elemComp(sl.Elem())), "(s.arr "+v.T+")")
 }
